@@ -240,6 +240,11 @@ class Token(TokenT):
 
 PathT: TypeAlias = list[Union[int, str, "PathToken"]]
 
+
+def _quote(segment: str) -> str:
+    """Return a quoted path segment. Segments hold source text, still escaped."""
+    return "'" + segment.replace("'", "\\'") + "'"
+
 RE_PROPERTY = re.compile(r"[\u0080-\uFFFFa-zA-Z_][\u0080-\uFFFFa-zA-Z0-9_-]*")
 
 
@@ -254,7 +259,13 @@ class PathToken(TokenT):
 
     def __str__(self) -> str:
         it = iter(self.path)
-        buf = [str(next(it))]
+        root = next(it)
+        if isinstance(root, str) and not RE_PROPERTY.fullmatch(root):
+            buf = [f"[{_quote(root)}]"]
+        elif isinstance(root, PathToken):
+            buf = [f"[{root}]"]
+        else:
+            buf = [str(root)]
         for segment in it:
             if isinstance(segment, PathToken):
                 buf.append(f"[{segment}]")
@@ -262,7 +273,7 @@ class PathToken(TokenT):
                 if RE_PROPERTY.fullmatch(segment):
                     buf.append(f".{segment}")
                 else:
-                    buf.append(f"[{segment!r}]")
+                    buf.append(f"[{_quote(segment)}]")
             else:
                 buf.append(f"[{segment}]")
         return "".join(buf)
